@@ -108,7 +108,29 @@ def kf_zone_in_meta(case) -> bool:
     return False
 
 
-CLASSES = {"kf_zone_in_meta": kf_zone_in_meta, "kf_zone_in_list": kf_zone_in_list, "kf_body_node_keyed_meta": kf_body_node_keyed_meta, "kf_nested_inline_map": kf_nested_inline_map,
+def kf_cr_in_string_via_file(case) -> bool:
+    """C01N7: the text holds a raw carriage return (inside a quoted string: anywhere else the lexer refuses it) AND the route goes
+    through a file the tools read back (universal-newline text mode turns CR into LF)."""
+    return case.get("entry") in ("tools", "cli") and "\r" in case["text"]
+
+
+def write_then_normalize(text):
+    """the file route of C01 on one text: octave_write(content) then octave_write(normalize); why or None."""
+    from octave_mcp.mcp.write import WriteTool
+    with tempfile.TemporaryDirectory() as td:
+        p = os.path.join(td, "w.oct.md")
+        w1 = asyncio.run(WriteTool().execute(target_path=p, content=text))
+        if w1.get("status") != "success":
+            return None
+        w2 = asyncio.run(WriteTool().execute(target_path=p))
+        if w2.get("status") != "success":
+            return "octave_write normalize fails on the file octave_write wrote"
+        if w2.get("canonical_hash") != w1.get("canonical_hash"):
+            return f"octave_write normalize changes a file octave_write just wrote ({w2.get('diff')})"
+    return None
+
+
+CLASSES = {"kf_cr_in_string_via_file": kf_cr_in_string_via_file, "kf_zone_in_meta": kf_zone_in_meta, "kf_zone_in_list": kf_zone_in_list, "kf_body_node_keyed_meta": kf_body_node_keyed_meta, "kf_nested_inline_map": kf_nested_inline_map,
            "kf_frontmatter_with_sentinel": kf_frontmatter_with_sentinel,
            "kf_holographic": kf_holographic}
 
@@ -212,6 +234,13 @@ def run(ctx: vlib.Ctx):
     # known findings: replay witnesses
     for f in findings:
         w = f["witness"]
+        if w.get("entry") == "tools":
+            why = write_then_normalize(w["text"])
+            if why:
+                ctx.known_reproduced.append((f, why))
+            else:
+                ctx.notes.append(f"known finding {f['id']} no longer reproduces on its witness")
+            continue
         o = oracle(TC.eval_text(w["text"]))
         if o:
             ctx.known_reproduced.append((f, o[1]))
